@@ -184,6 +184,15 @@ def same_namespace_source(k, v):
     return k[0] == "field" and v[0] == "field" and k[2] == "abbreviation" and v[2] == "namespace" and k[1] == v[1]
 
 
+def rule_member_order(ck, F):
+    """Members are serialized in struct order, so struct order has to be declaration order: the traversal obligations of C02.R3 that
+    concern order (adaptors that skip or reverse, regrouping, operations on the field list that move entries), decided here."""
+    from rules import c02 as C02
+    from rules import c04 as C04
+    sub = C04._Sub(ck, "R4", lambda key: any(w in key for w in (":adapter:", ":vec-op:", ":reorder:", ":loop#")) or key.startswith("floor:"), only_rules=("R3",))
+    C02.rule_traversal(sub, F, None)
+
+
 def run(ck, F):
     ck.explanation = (
         "The yaserde annotations are read off the output grammar: every `#[yaserde(..)]` template of the field, struct, simple-type "
@@ -199,6 +208,8 @@ def run(ck, F):
     ck.rule("R2", "struct triple: prefix, namespaces key and namespaces value come from one Namespace value; rename = raw type name; "
                   "envelopes: soapenv -> SOAP 1.1 envelope URI plus every target namespace of the binding")
     ck.rule("R3", "prefix coverage: every prefix a member template can carry is a key of the enclosing struct's namespaces map")
+    ck.rule("R4", "member order: the readers of complex content visit the child elements once, in document order, and append members in "
+                  "that order (no skipping / reversing adaptor, no regrouping, no reordering operation on the field list)")
     ck.rule("R5", "simple-type carrier: text=true on String for string and non-user bases, flatten=true only for user-type bases")
     X = T.extractor(F)
     CE = og.CallExpander(F)
@@ -342,6 +353,7 @@ def run(ck, F):
     ck.floor("R2", "serialized struct templates", n_groups, 5)
     # ---- R5
     rule_carrier(ck, X)
+    rule_member_order(ck, F)
 
 
 def _gname(g):
